@@ -124,7 +124,9 @@ bs = ["| round | refactorings | with a false alarm or 'cannot decide' at first r
 for r, (n, a, u, x) in sorted(brounds.items()):
     bs.append(f"| {r} | {n} | {a} | {u} | {x} |")
 doc = doc.replace("{BENIGN_SUMMARY}", "\n".join(bs))
-doc = (doc.replace("{N_FIXES}", str(n_fix)).replace("{N_FOUND}", str(n_fix + 2))
+_nfc = len(subprocess.run("git -C /repo log --format=%h --grep '^fix:'", shell=True,
+                          capture_output=True, text=True).stdout.split())
+doc = (doc.replace("{N_FIX_COMMITS}", str(_nfc)).replace("{N_FIXES}", str(n_fix)).replace("{N_FOUND}", str(n_fix + 2))
        .replace("{N_OPEN_KEYS}", str(len(open_keys))).replace("{ROUND_TABLE}", "\n".join(rt))
        .replace("{WEAK_A}", str(weak_first["a"])).replace("{WEAK_B}", str(weak_first["b"]))
        .replace("{N_TWINS}", str(len(TWINS))).replace("{N_SEEDS}", str(len(status))))
